@@ -285,7 +285,8 @@ CHECKS = {
         technique="Coq proof (invariant by induction over call histories, "
                   "fuel-bounded loop) + source-to-Coq translation of "
                   "CachedInput.read/readline with proved equality to the "
-                  "model + vm_compute correspondence"),
+                  "model + vm_compute correspondence"
+                  " + source-to-Coq translation of CachedInput.__init__ and Request.input / read / data / read_chunk with proved equality to the model"),
     "C10": dict(
         text="Theorems (all pair lists, all strings): parse_qsl(urlencode "
              "pairs) = pairs (blank values kept or dropped per setting) for "
@@ -404,7 +405,8 @@ CHECKS = {
         technique="Coq proof (refinement by induction over operation "
                   "histories, lia-based UTF-8 round trip) + vm_compute "
                   "correspondence + source-to-Coq translation of the methods "
-                  "of class Headers with proved equality to the model"),
+                  "of class Headers with proved equality to the model"
+                  " + source-to-Coq translation of Headers.iso88591 / utf8 / __iter__ (the former primitive of the Headers tie) with proved equality to the model"),
     "C15": dict(
         text="Model regenerated from the source on every run: "
              "harness/py2pages.py translates the nine built-in page functions "
